@@ -50,7 +50,7 @@ func (ds *dataStore) getStoreKey(keyName string) (sk *storeKey, exists bool) {
 
 func (ds *dataStore) hasChangedUnlocked(keyName string, id uint64) bool {
 	sk, exists := ds.getStoreKey(keyName)
-	if !exists {
+	if !exists || sk.isExpiredUnlocked() {
 		return id != 0
 	} else {
 		return id != sk.id
